@@ -683,6 +683,28 @@ def _r4(w: World, rep: Report):
         rep.check('C09.R4', f'functions.{fi.name}|plugin-count', ok, line=fi.node.lineno, file=REL,
                   why='' if ok else f'{op}: plugins run {counts} times; expected once exactly when flag 10 is set',
                   facts={'counts': counts})
+    # the plugin runner itself: every plugin of the scope, once, in order, with the run's objects
+    rp = w.repo.func('functions', 'run_plugins')
+    fors = [n for n in ast.walk(rp.node) if isinstance(n, ast.For)]
+    ok, why = len(fors) == 1, 'run_plugins does not have exactly one loop over the plugins'
+    if ok:
+        f = fors[0]
+        it = ast.unparse(f.iter).replace(' ', '')
+        scope_p, tape_p, stack_p, cache_p = rp.params[:4]
+        if it != f'{tape_p}.plugins[{scope_p}]':
+            ok, why = False, f'the loop iterates `{it}`, not the tape\'s plugins of the requested scope'
+        calls = [n for n in ast.walk(f) if isinstance(n, ast.Call) and isinstance(n.func, ast.Name)
+                 and n.func.id == ast.unparse(f.target)]
+        if ok and (len(calls) != 1 or [ast.unparse(a) for a in calls[0].args] != [tape_p, stack_p, cache_p]):
+            ok, why = False, 'a plugin is not called exactly once per iteration with (tape, stack, cache)'
+        if ok and any(isinstance(n, (ast.Break, ast.Continue, ast.Return, ast.If, ast.Try)) for n in ast.walk(f)):
+            ok, why = False, 'the plugin loop can skip or stop early (break / continue / condition / try)'
+    rep.check('C09.R4', 'functions.run_plugins|every-plugin-once', ok, line=rp.node.lineno, file=REL, why='' if ok else why)
+    rse = w.repo.func('functions', 'run_sig_extensions')
+    calls = [n for n in ast.walk(rse.node) if isinstance(n, ast.Call) and dotted(n.func) == 'run_plugins']
+    ok = len(calls) == 1 and [ast.unparse(a) for a in calls[0].args] == ["'signature_extensions'"] + rse.params[:3]
+    rep.check('C09.R4', 'functions.run_sig_extensions|delegates', ok, line=rse.node.lineno, file=REL,
+              why='' if ok else 'run_sig_extensions does not run the signature_extensions scope on its own (tape, stack, cache)')
     # nobody else runs the signature extensions
     allowed = {w.handler_for(o).name for o in SIG_OPS_EXACTLY_ONCE + ('OP_TAPROOT', 'OP_CHECK_TEMPLATE',
                                                                       'OP_CHECK_TEMPLATE_VERIFY')}
